@@ -37,13 +37,27 @@ def dist_matrix(net):
     return [[-1 if np.isinf(x) else int(x) for x in row] for row in D]
 
 
+def sigma_matrix(A, D):
+    """number of shortest paths i -> j along links (sigma[i][i] = 1), by dynamic programming over
+    the distance layers; exact integers"""
+    n = len(D)
+    S = [[0] * n for _ in range(n)]
+    for i in range(n):
+        S[i][i] = 1
+        order = sorted((j for j in range(n) if D[i][j] > 0), key=lambda j: D[i][j])
+        for j in order:
+            S[i][j] = sum(S[i][k] for k in range(n) if A[k][j] and D[i][k] == D[i][j] - 1)
+    return S
+
+
 def request(kind, net, W, g0, g1, extra=""):
     n = net.N
     w = [Fraction(float(x)) for x in net.node_weights]
     Wq = [[Fraction(float(W[i][j])) for j in range(n)] for i in range(n)]
     D = dist_matrix(net)
     return (f"{kind} {extra}{n} {enc_boolmat(net.adjacency)} {enc_rats(w)} {enc_ratmat(Wq)} "
-            f"{enc_bools(g0)} {enc_bools(g1)} " + (";".join(",".join(map(str, r)) for r in D) or "-"))
+            f"{enc_bools(g0)} {enc_bools(g1)} " + (";".join(",".join(map(str, r)) for r in D) or "-")
+            + " " + (";".join(",".join(map(str, r)) for r in sigma_matrix(net.adjacency, D)) or "-"))
 
 
 def impl_catalogue(net, directed, connected, W, g0, g1):
@@ -64,6 +78,11 @@ def impl_catalogue(net, directed, connected, W, g0, g1):
     put("total_node_weight", lambda: net.total_node_weight)
     if net.n_links > 0:
         put("outstrength", lambda: net.outstrength("w"))
+    # igraph counts unordered pairs on undirected graphs, the expression ordered ones
+    put("betweenness", lambda: net.betweenness() * (1 if directed else 2))
+    if not directed and any(g0) and any(g1):
+        put("interregional_betweenness", lambda: net.interregional_betweenness(
+            sources=[i for i in range(n) if g0[i]], targets=[i for i in range(n) if g1[i]]))
     if not directed:
         put("local_clustering", net.local_clustering)
         put("global_clustering", net.global_clustering)
